@@ -215,6 +215,12 @@ where
                     all.push(format!("{e}"));
                 }
                 all.push(e.to_string());
+                // the caller's format specification does not change the text either
+                all.push(format!("{e:.16}"));
+                all.push(format!("{e:>400}"));
+                all.push(format!("{e:<400}"));
+                all.push(format!("{e:^7}"));
+                all.push(format!("{e:#}"));
                 let mut big = LimitedSink { left: 4096, got: String::new() };
                 let _ = std::fmt::Write::write_fmt(&mut big, format_args!("{e}"));
                 all.push(big.got);
